@@ -9,9 +9,17 @@ import (
 	"github.com/titpetric/vuego/internal/parser"
 )
 
+// maxIncludeDepth bounds the length of the template inclusion chain, so that a template which includes
+// itself, directly or through other files, fails with an error instead of exhausting the stack.
+const maxIncludeDepth = 100
+
 // evalInclude processes a <template include="..."> tag with the given vars map.
 // Handles stack push/pop properly using defer to ensure cleanup even on error.
 func (v *Vue) evalInclude(ctx VueContext, node *html.Node, vars map[string]any, depth int) ([]*html.Node, error) {
+	if len(ctx.TemplateStack) > maxIncludeDepth {
+		return nil, fmt.Errorf("include depth exceeded maximum of %d (included from %s), possible circular include", maxIncludeDepth, ctx.FormatTemplateChain())
+	}
+
 	ctx.stack.Push(vars)
 	defer ctx.stack.Pop()
 
